@@ -547,6 +547,13 @@ def token_alphabet(P, R, rule='C16.TAB.4'):
     both = sorted((set(alpha) | marked) & forbidden)
     R.ob(rule, not both, site, 'the bare-word alphabet (%d characters marked in the table) shares no character with the syntax characters %s or with white space (shared: %s)' % (len(marked), ''.join(sorted(delims - {chr(10), chr(13), chr(9)})), [repr(c) for c in both]), key='token-alphabet')
     R.ob(rule, len(delims) >= 8, site, 'syntax characters were found in the parser (%d)' % len(delims), key='delims-found', nontrivial=False)
+    # ... and it contains what the documented grammar says an unquoted string may contain (doc/iauthd-c.conf.example:
+    # "letters, digits, '-', '.', '_' and '#'"), when the table could be folded completely
+    if not undecided:
+        import string as _string
+        documented = set(_string.ascii_letters + _string.digits + '-._#')
+        missing = sorted(documented - marked)
+        R.ob(rule, not missing, site, 'every character the documented grammar allows in an unquoted string is marked as a bare-word character%s' % ((' (missing: %s)' % ''.join(missing)) if missing else ''), key='token-alphabet-documented')
 
 
 def keyword_tables(P, R, rule='C16.TAB.5'):
@@ -701,6 +708,8 @@ def run(P, R, tier):
     c14.bounds(P, Remap(R, {'C14.BND.1': 'C16.BND.2'}))
     # which characters make a bare word is read from the class table with the byte itself as the index
     c14.ctype_subscripts(P, R, 'C16.BND.3')
+    # \\xNN stands for one byte: the two digits are consumed with it
+    c14.decoder_advance(P, Remap(R, {'C16.TAB.7': 'C16.TAB.7'}), consumed_rule='C16.TAB.7')
     # a host/service pair is handed over field by field: the source is cleared after, not before, the value is taken
     c14.ownership(P, R, 'C16.OWN.1')
     # the parser and the merge keep nothing from one load (or one entry, or one nested call) to the next
